@@ -277,9 +277,13 @@ def check_fft(n, which, tier, twin=False):
     import warnings
     warnings.simplefilter("ignore")
     try:
-        if which == "fft":
-            got = list(fft(arr, complex_dtype=np.complex128))
-            exp = _dft(xs)
+        sgn = -1 if which.endswith("sign=-1") else 1
+        if which.startswith("fft"):
+            got = list(fft(arr, sign=sgn, complex_dtype=np.complex128))
+            exp = _dft(xs, sgn)
+        elif which == "ifft":
+            got = list(ifft(arr, complex_dtype=np.complex128))
+            exp = [SymCplx(c.re / n, c.im / n) for c in _dft(xs, -1)]
         elif which == "ifft(fft)":
             got = list(ifft(fft(arr, complex_dtype=np.complex128), complex_dtype=np.complex128))
             exp = xs
@@ -288,11 +292,11 @@ def check_fft(n, which, tier, twin=False):
             vs = np.empty(n, dtype=object)
             for j in range(n):
                 vs[j] = p.Variable(f"x{j}")
-            sexprs = sym_fft(vs)
+            sexprs = sym_fft(vs, sign=sgn)
             env = {f"x{j}": xs[j] for j in range(n)}
             ev = EvaluationMapper(env)
             got = [ev(e) if isinstance(e, p.Expression) else SymCplx.lift(e) for e in sexprs]
-            exp = _dft(xs)
+            exp = _dft(xs, sgn)
     except Exception as e:  # noqa: BLE001
         _viol(res, f"{which} n={n} raises", "fft-raises", f"{which} of length {n} raised {e!r}")
         return res
@@ -319,16 +323,19 @@ def check_fft(n, which, tier, twin=False):
         vals = [complex(float(sym.term_value(model.eval(x.re, model_completion=True))),
                         float(sym.term_value(model.eval(x.im, model_completion=True)))) for x in xs]
         carr = np.array(vals, dtype=np.complex128)
-        if which == "fft":
-            cg = fft(carr, complex_dtype=np.complex128)
-            ce = [sum(vals[j] * cmath.exp(-2j * cmath.pi * kk * j / n) for j in range(n)) for kk in range(n)]
+        if which.startswith("fft"):
+            cg = fft(carr, sign=sgn, complex_dtype=np.complex128)
+            ce = [sum(vals[j] * cmath.exp(-2j * cmath.pi * sgn * kk * j / n) for j in range(n)) for kk in range(n)]
+        elif which == "ifft":
+            cg = ifft(carr, complex_dtype=np.complex128)
+            ce = [sum(vals[j] * cmath.exp(2j * cmath.pi * kk * j / n) for j in range(n)) / n for kk in range(n)]
         elif which == "ifft(fft)":
             cg = ifft(fft(carr, complex_dtype=np.complex128), complex_dtype=np.complex128)
             ce = vals
         else:
             from pymbolic import evaluate
             cg = [evaluate(e, {f"x{j}": vals[j] for j in range(n)}) if isinstance(e, p.Expression) else e for e in sexprs]
-            ce = [sum(vals[j] * cmath.exp(-2j * cmath.pi * kk * j / n) for j in range(n)) for kk in range(n)]
+            ce = [sum(vals[j] * cmath.exp(-2j * cmath.pi * sgn * kk * j / n) for j in range(n)) for kk in range(n)]
         if twin:
             ce = list(reversed(ce))
         if abs(complex(cg[k]) - ce[k]) <= n * 1e-9:
@@ -560,8 +567,10 @@ def items(tier):
     nmax = 12 if tier == "quick" else 32
     for n in range(1, nmax + 1):
         out += [("fft", n, "fft"), ("fft", n, "ifft(fft)")]
+        if n <= (8 if tier == "quick" else 32):
+            out += [("fft", n, "fft sign=-1"), ("fft", n, "ifft")]
         if n <= (8 if tier == "quick" else 16):
-            out.append(("fft", n, "sym_fft"))
+            out += [("fft", n, "sym_fft"), ("fft", n, "sym_fft sign=-1")]
     out += [("poly", i) for i in range(len(POLY_SHAPES))]
     return out
 
